@@ -828,6 +828,47 @@ impl P2Project {
         v
     }
 
+    pub fn project_of(&self, o: &Owner) -> Option<&Project> {
+        match o {
+            Owner::Root => Some(&self.root),
+            Owner::Dep(i) => Some(&self.deps[*i].prj),
+            Owner::Std => None,
+        }
+    }
+
+    /// File that holds a model item now.
+    pub fn file_of_item(&self, o: &Owner, id: ItemId) -> Option<FileId> {
+        let p = self.project_of(o)?;
+        let fi = p.file_of(id)?;
+        Some(FileId {
+            owner: o.clone(),
+            rel: p.files[fi].rel.clone(),
+        })
+    }
+
+    /// Files an extra file references.
+    pub fn extra_refs(&self, e: &Extra) -> BTreeSet<FileId> {
+        let mut s = BTreeSet::new();
+        for (o, id) in &e.item_refs {
+            if let Some(f) = self.file_of_item(o, *id) {
+                s.insert(f);
+            }
+        }
+        for (di, ei) in &e.link_refs {
+            s.insert(FileId {
+                owner: Owner::Dep(*di),
+                rel: self.deps[*di].extra[*ei].rel.clone(),
+            });
+        }
+        for r in &e.std_refs {
+            s.insert(FileId {
+                owner: Owner::Std,
+                rel: r.clone(),
+            });
+        }
+        s
+    }
+
     /// Known references: (A, B) = file A uses something file B defines.
     pub fn edges(&self) -> Vec<(FileId, FileId)> {
         let mut v = vec![];
@@ -837,8 +878,8 @@ impl P2Project {
             }
         }
         for e in &self.extra {
-            for b in &e.refs {
-                v.push((FileId::root(&e.rel), b.clone()));
+            for b in self.extra_refs(e) {
+                v.push((FileId::root(&e.rel), b));
             }
         }
         for (i, x) in self.deps.iter().enumerate() {
@@ -855,32 +896,130 @@ impl P2Project {
                 }
             }
             for e in &x.extra {
-                for b in &e.refs {
-                    v.push((id(&e.rel), b.clone()));
+                for b in self.extra_refs(e) {
+                    v.push((id(&e.rel), b));
                 }
             }
         }
         v
     }
 
-    /// Files reachable from the root project's (non-example) files.
+    /// Files holding a definition that the root project reaches *symbol by
+    /// symbol* (what `sort_filelist` calls "connected from project"): every
+    /// definition of the root project, and transitively what they reference.
+    /// A definition that merely shares a file with a reached one is not
+    /// reached.
     pub fn reachable_from_root(&self) -> BTreeSet<FileId> {
-        let edges = self.edges();
-        let mut seen: BTreeSet<FileId> = self
-            .files()
-            .into_iter()
-            .filter(|(f, ex)| f.owner == Owner::Root && !ex)
-            .map(|x| x.0)
-            .collect();
-        let mut work: Vec<FileId> = seen.iter().cloned().collect();
-        while let Some(a) = work.pop() {
-            for (x, y) in &edges {
-                if *x == a && seen.insert(y.clone()) {
-                    work.push(y.clone());
+        let mut items: BTreeSet<(Owner, ItemId)> = BTreeSet::new();
+        let mut links: BTreeSet<(usize, usize)> = BTreeSet::new();
+        let mut files: BTreeSet<FileId> = BTreeSet::new();
+        let mut work: Vec<(Owner, ItemId)> = vec![];
+        let mut lwork: Vec<(usize, usize)> = vec![];
+        for f in self.root.files.iter().filter(|f| f.alive && !f.is_example()) {
+            for it in &f.items {
+                if self.root.items[*it].alive && items.insert((Owner::Root, *it)) {
+                    work.push((Owner::Root, *it));
                 }
             }
         }
-        seen
+        for e in &self.extra {
+            files.insert(FileId::root(&e.rel));
+            for r in &e.std_refs {
+                files.insert(FileId {
+                    owner: Owner::Std,
+                    rel: r.clone(),
+                });
+            }
+            for x in &e.item_refs {
+                if items.insert(x.clone()) {
+                    work.push(x.clone());
+                }
+            }
+            for l in &e.link_refs {
+                if links.insert(*l) {
+                    lwork.push(*l);
+                }
+            }
+        }
+        loop {
+            if let Some((o, id)) = work.pop() {
+                if let Some(p) = self.project_of(&o) {
+                    for r in p.item_refs(id) {
+                        if items.insert((o.clone(), r)) {
+                            work.push((o.clone(), r));
+                        }
+                    }
+                }
+            } else if let Some((di, ei)) = lwork.pop() {
+                let e = &self.deps[di].extra[ei];
+                for x in &e.item_refs {
+                    if items.insert(x.clone()) {
+                        work.push(x.clone());
+                    }
+                }
+                for l in &e.link_refs {
+                    if links.insert(*l) {
+                        lwork.push(*l);
+                    }
+                }
+            } else {
+                break;
+            }
+        }
+        for (o, id) in &items {
+            if let Some(f) = self.file_of_item(o, *id) {
+                files.insert(f);
+            }
+        }
+        for (di, ei) in &links {
+            files.insert(FileId {
+                owner: Owner::Dep(*di),
+                rel: self.deps[*di].extra[*ei].rel.clone(),
+            });
+        }
+        files
+    }
+
+    /// Number of definitions (modules incl. tests, packages, interfaces) of a file.
+    pub fn definitions_in(&self, f: &FileId) -> usize {
+        let Some(p) = self.project_of(&f.owner) else { return 0 };
+        match p.files.iter().find(|x| x.alive && x.rel == f.rel) {
+            Some(x) => x.items.iter().filter(|i| p.items[**i].alive).count(),
+            None => 1, // an extra file: one module
+        }
+    }
+
+    /// Known C25 finding: `sort_filelist` puts a file at the position of its
+    /// first definition in topological order.  A listed before B although A
+    /// references B is explained by that iff A is a model file with several
+    /// definitions one of which does not (transitively) need anything of B.
+    pub fn explained_by_first_definition(&self, a: &FileId, b: &FileId) -> bool {
+        if a.owner != b.owner {
+            return false;
+        }
+        let Some(p) = self.project_of(&a.owner) else { return false };
+        let Some(fa) = p.files.iter().find(|x| x.alive && x.rel == a.rel) else {
+            return false;
+        };
+        let Some(fb) = p.files.iter().find(|x| x.alive && x.rel == b.rel) else {
+            return false;
+        };
+        let live: Vec<ItemId> = fa.items.iter().copied().filter(|i| p.items[*i].alive).collect();
+        if live.len() < 2 {
+            return false;
+        }
+        live.iter().any(|it| {
+            let mut seen: BTreeSet<ItemId> = BTreeSet::new();
+            let mut work = vec![*it];
+            while let Some(x) = work.pop() {
+                for r in p.item_refs(x) {
+                    if seen.insert(r) {
+                        work.push(r);
+                    }
+                }
+            }
+            !seen.iter().any(|r| fb.items.contains(r))
+        })
     }
 
     pub fn has_wildcard(&self) -> bool {
@@ -917,7 +1056,7 @@ impl P2Project {
                 " {}[{} -> {}]",
                 e.rel,
                 e.defines.join(","),
-                e.refs.iter().map(|r| r.show()).collect::<Vec<_>>().join(",")
+                self.extra_refs(e).iter().map(|r| r.show()).collect::<Vec<_>>().join(",")
             ));
         }
         for (i, x) in self.deps.iter().enumerate() {
@@ -935,6 +1074,9 @@ impl P2Project {
         }
         if let Some(c) = self.forced_collision {
             s.push_str(&format!(" | forced collision: {c}"));
+        }
+        if self.single_def {
+            s.push_str(" | one definition per file");
         }
         s
     }
